@@ -384,7 +384,9 @@ impl Sched {
         while !g.tasks.is_empty() {
             let (g2, _) = self.cv.wait_timeout(g, std::time::Duration::from_millis(200)).unwrap();
             g = g2;
-            if t0.elapsed().as_secs() > 120 {
+            // longer than the liveness watchdog (guard::start_watchdog): a call into the library that never returns
+            // is reported by the watchdog as a violation with a replay; only a stuck harness ends up here
+            if t0.elapsed().as_secs() > WAIT_LIMIT_S.load(std::sync::atomic::Ordering::Relaxed) {
                 return false;
             }
         }
@@ -406,6 +408,9 @@ impl Sched {
         }
     }
 }
+
+/// how long a run may take before the coordinator gives up on it (seconds)
+pub static WAIT_LIMIT_S: std::sync::atomic::AtomicU64 = std::sync::atomic::AtomicU64::new(900);
 
 // ---- thread-local task context, used by the hooks installed into blake3 ----
 
